@@ -338,13 +338,13 @@ package grpctunnel
 
 //@ func fromProto
 //@   assigns nothing
-//@   loop 1 invariant[C02] @copied  forall k string :: visited(k) ==> has(vals, k) && sameSlice(vals[k], md.Md[k].Val) && has(md.Md, k)
+//@   loop 1 invariant[C02,C18] @copied  forall k string :: visited(k) ==> has(vals, k) && sameSlice(vals[k], md.Md[k].Val) && has(md.Md, k)
 //@   loop 1 invariant[C02] @only    forall k string :: has(vals, k) ==> visited(k)
 //@   loop 1 invariant[C02] @alive   vals != nil && md != nil
 //@   ensures[C02] @nil    md == nil ==> result == nil
 //@   ensures[C02] @nonnil md != nil ==> result != nil
 //@   ensures[C02] @keys   md != nil ==> forall k string :: has(result, k) <==> has(md.Md, k)
-//@   ensures[C02] @values md != nil ==> forall k string :: has(md.Md, k) ==> sameSlice(result[k], md.Md[k].Val)
+//@   ensures[C02,C18] @values md != nil ==> forall k string :: has(md.Md, k) ==> sameSlice(result[k], md.Md[k].Val)
 //@   nopanic[C09]
 
 //@ func toProto
@@ -369,7 +369,7 @@ package grpctunnel
 //@   locks s.mu
 //@   assigns frame.MethodName
 //@   ensures[C03,C08,C10] @recorded  result0 ==> s.lastSeen == streamID
-//@   ensures[C08]         @refuse    !result0 <==> (old(has(s.streams, streamID)) || streamID <= old(s.lastSeen))
+//@   ensures[C08,C09,C13] @refuse    !result0 <==> (old(has(s.streams, streamID)) || streamID <= old(s.lastSeen))
 //@   ensures[C08]         @refused   !result0 ==> result1 != nil && s.lastSeen == old(s.lastSeen) && s.streams == old(s.streams) && count("go") == 0
 //@   ensures[C08]         @refusedtable !result0 ==> forall k int64 :: has(s.streams, k) == old(has(s.streams, k))
 //@   ensures[C10]         @closing   result0 && closing ==> isStatus(result1, codes.Unavailable) && count("go") == 0
@@ -501,6 +501,8 @@ package grpctunnel
 //@     assert[C03,C06] @overrun arg1 == acceptErr && acceptErr != nil
 //@   ensures[C07,C09] @niltarget st == nil ==> count("call:finishStream") == 0 && count("call:halfClose") == 0 && count("call:accept") == 0 && count("call:updateWindow") == 0
 //@   ensures[C03]     @once      count("call:finishStream") <= 1
+//@   ensures[C06,C09,C16] @rejectedends count("call:accept") == 1 && acceptErr != nil ==> count("call:finishStream") == 1
+//@   ensures[C07]     @cancelends old(frame) is *tunnelpb.ClientToServer_Cancel && st != nil ==> count("call:finishStream") == 1
 //@   locks st.svr.mu, st.writeMu
 //@   assigns st.halfClosed, cancel(st.cancel), rclosed(st.receiver)
 //@   effects nilrecv-ok, nosend, nowait
@@ -640,6 +642,7 @@ package grpctunnel
 //@   ensures[C01]     @clean     err == nil ==> st.readErr == nil
 //@   ensures[C01,C07] @endcause  !dqOK ==> err != nil && ok
 //@   ensures[C01]     @cleaneof  !dqOK && err == io.EOF ==> !wasCancelled
+//@   ensures[C01,C16] @eofcause  !dqOK && err == io.EOF ==> atomicLoad(st.halfClosed) != nil && atomicLoad(st.halfClosed).error == io.EOF
 //@   assigns st.readErr
 //@   nopanic[C09]
 
@@ -1065,6 +1068,7 @@ package grpctunnel
 //@   loop 1 invariant[C02] @hdrfilled forall j int :: 0 <= j && j <= rangeindex && j < len(st.headersTargets) ==> *st.headersTargets[j] == hd
 //@   ensures[C07,C09] @niltarget st == nil ==> count("call:finishStream") == 0 && count("call:accept") == 0 && count("call:updateWindow") == 0 && count("close") == 0
 //@   ensures[C03]     @once      count("call:finishStream") <= 1
+//@   ensures[C06,C09,C16] @rejectedends count("call:accept") == 1 && acceptErr != nil ==> count("call:finishStream") == 1
 //@   locks st.ch.mu, st.metaMu
 //@   assigns st.done, cancel(st.cancel), rclosed(st.receiver), chan(st.doneSignal), chan(st.gotHeadersSignal), elems(st.trailersTargets), elems(st.headersTargets)
 //@   effects nilrecv-ok, nosend, nowait
@@ -1152,7 +1156,7 @@ package grpctunnel
 //@   ensures[C01,C16] @first     err == nil ==> e1 == nil && sameSlice(data, d1)
 //@   ensures[C02,C07,C16] @single    err == nil && !st.isServerStream ==> count("call:readMsgLocked") == 2 && e2 == io.EOF && ok2
 //@   ensures[C01,C09,C16] @protoerr  !ok ==> err != nil && isStatus(err, codes.Internal)
-//@   ensures[C02,C04,C07] @laterstatus !st.isServerStream && e1 == nil && e2 != nil && e2 != io.EOF ==> err == e2 && ok == ok2 && data == nil
+//@   ensures[C02,C04,C07,C14] @laterstatus !st.isServerStream && e1 == nil && e2 != nil && e2 != io.EOF ==> err == e2 && ok == ok2 && data == nil
 //@   ensures[C14,C16] @second    !st.isServerStream && e1 == nil && e2 == nil ==> isStatus(err, codes.Internal) && !ok && data == nil && st.readErr == err
 //@   ensures[C16]     @streaming st.isServerStream ==> count("call:readMsgLocked") == 1
 //@   ensures[C01]     @errnodata err != nil ==> data == nil
